@@ -15,7 +15,8 @@ META = dict(
                "kind, NotEqual is true across kinds, Contains/StartsWith/EndsWith hold only on the documented vector/element kind pairs, each inhabited) "
                "with C15_type_strict_pinned_refuted (the pre-fix derived PartialOrd made 5_u64 > 30_i64); C15_distance; C15_eval_matches_doc "
                "(evaluate_conditions = the recursive reference evaluator doc_eval written from the documentation, for every condition tree of any "
-               "depth, all ten condition kinds, all modifiers, both logic operators); C15_search_step(_doc) / C15_elements_step_doc (an element is "
+               "depth, all ten condition kinds, all modifiers, both logic operators) with C15_eval_matches_doc_pinned_refuted (the pre-fix evaluator selected age=5_u64 "
+               "for age > 30_i64); C15_path_cost (path search: cost 1 / 2 / 0 for pass / fail / stop as documented); C15_search_step(_doc) / C15_elements_step_doc (an element is "
                "selected iff the control is true, followed iff Continue, pruned iff Stop, the search ends iff Finish). The model is tied to /repo on "
                "every run: generated search queries with random condition trees over generated property graphs are executed by the real agdb and "
                "by the extracted model and every result compared.",
